@@ -1,3 +1,204 @@
 package eb
 
-func newRealNode(i int, scratch string) Node { panic("real nodes: not built yet") }
+import (
+	"fmt"
+	"net/http"
+	"net/http/httptest"
+	"os"
+	"path/filepath"
+	"strings"
+	"sync"
+
+	"github.com/openebs/jiva/replica"
+	"github.com/openebs/jiva/replica/rest"
+	"github.com/openebs/jiva/util"
+
+	"verif/harness/ea"
+)
+
+// RealNode is a real replica.Server on a scratch directory behind the real replica/rest router.  The data path
+// calls Server.WriteAt/ReadAt/Sync/Unmap directly (what the RPC server calls).
+type RealNode struct {
+	idx    int
+	dir    string
+	srv    *replica.Server
+	router http.Handler
+}
+
+var holesOnce sync.Once
+
+func newRealNode(i int, scratch string, rev int64) Node {
+	holesOnce.Do(func() {
+		util.VerifNoSync = true
+		go replica.CreateHoles()
+	})
+	n := &RealNode{idx: i, dir: filepath.Join(scratch, fmt.Sprintf("n%d", i))}
+	if err := os.MkdirAll(n.dir, 0755); err != nil {
+		panic(err)
+	}
+	n.boot()
+	if err := n.srv.Create(VolSize); err != nil {
+		panic("create real node: " + err.Error())
+	}
+	if rev > 1 {
+		// give the replica its initial revision count through the real code
+		if err := n.srv.Open(); err != nil {
+			panic(err)
+		}
+		n.srv.SetReplicaMode("RW")
+		if err := n.srv.SetRevisionCounter(rev); err != nil {
+			panic(err)
+		}
+		n.srv.Close()
+		n.boot()
+	}
+	return n
+}
+
+func (n *RealNode) boot() {
+	n.srv = replica.NewServer(ip(n.idx)+":9502", n.dir, 512, "")
+	n.router = rest.NewRouter(rest.NewServer(n.srv))
+}
+
+func (n *RealNode) Server() *replica.Server { return n.srv }
+func (n *RealNode) Dir() string             { return n.dir }
+
+func (n *RealNode) ServeHTTP(w http.ResponseWriter, r *http.Request) {
+	rec := httptest.NewRecorder()
+	n.router.ServeHTTP(rec, r)
+	if r.Method == "POST" && r.URL.Query().Get("action") == "open" && rec.Code == 200 && n.srv.Replica() != nil {
+		// the tail of app.startReplica: once the replica is open a non-clone replica reports clone status NA
+		if n.srv.Replica().GetCloneStatus() == "" {
+			n.srv.Replica().SetCloneStatus("NA")
+		}
+	}
+	for k, v := range rec.Header() {
+		w.Header()[k] = v
+	}
+	w.WriteHeader(rec.Code)
+	w.Write(rec.Body.Bytes())
+}
+
+func (n *RealNode) WriteAt(b []byte, off int64) (int, error) { return n.srv.WriteAt(b, off) }
+func (n *RealNode) ReadAt(b []byte, off int64) (int, error)  { return n.srv.ReadAt(b, off) }
+func (n *RealNode) Sync() (int, error)                       { return n.srv.Sync() }
+func (n *RealNode) Unmap(o, l int64) (int, error) {
+	// the controller harness issues Unmap(0,0): a zero-length discard
+	return n.srv.Unmap(o, l)
+}
+
+// Restart: the replica process closes the replica and exits when its data connection is gone; a new process starts.
+func (n *RealNode) Restart() {
+	if n.srv.Replica() != nil {
+		n.srv.Close()
+	}
+	n.boot()
+}
+
+func (n *RealNode) View() NodeView {
+	st, info := n.srv.Status()
+	v := NodeView{State: string(st), Mode: "CLOSED", Size: info.Size, Rebuilding: info.Rebuilding, Checkpoint: info.Checkpoint}
+	rev, _ := n.srv.GetRevisionCounter()
+	v.Rev = rev
+	if r := n.srv.Replica(); r != nil {
+		v.Mode = r.GetReplicaMode()
+		ch, _ := r.Chain()
+		if len(ch) > 0 {
+			v.Chain = ch[1:]
+		}
+		buf := make([]byte, info.Size)
+		n.srv.ReadAt(buf, 0)
+		v.Data = string(buf)
+	} else {
+		v.Data = string(make([]byte, info.Size))
+	}
+	return v
+}
+
+// SnapshotImage: copy the directory, revert the copy to the snapshot with the real code and read it.
+func (n *RealNode) SnapshotImage(name string) (string, bool) {
+	if _, err := os.Stat(filepath.Join(n.dir, name)); err != nil {
+		return "", false
+	}
+	cp := n.dir + "-copy"
+	defer os.RemoveAll(cp)
+	if err := ea.CopyDir(n.dir, cp); err != nil {
+		panic("CopyDir: " + err.Error())
+	}
+	s2 := replica.NewServer("127.0.0.1:9702", cp, 512, "")
+	if err := s2.Open(); err != nil {
+		return "open-failed:" + err.Error(), true
+	}
+	defer s2.Close()
+	if err := s2.Revert(name, "2020-01-01T00:00:00Z"); err != nil {
+		return "revert-failed:" + err.Error(), true
+	}
+	_, info := s2.Status()
+	buf := make([]byte, info.Size)
+	s2.ReadAt(buf, 0)
+	return string(buf), true
+}
+
+func copySparse(src, dst string) error {
+	tmpS, tmpD := src+".cpdir", dst+".cpdir"
+	_ = tmpS
+	_ = tmpD
+	// reuse the hole-preserving directory copy on a one-file directory
+	sd, dd := filepath.Dir(src), filepath.Dir(dst)
+	stage := filepath.Join(sd, ".stage-"+filepath.Base(src))
+	os.RemoveAll(stage)
+	if err := os.MkdirAll(stage, 0755); err != nil {
+		return err
+	}
+	defer os.RemoveAll(stage)
+	if err := os.Link(src, filepath.Join(stage, filepath.Base(src))); err != nil {
+		return err
+	}
+	out := filepath.Join(dd, ".stage-out-"+filepath.Base(dst))
+	defer os.RemoveAll(out)
+	if err := ea.CopyDir(stage, out); err != nil {
+		return err
+	}
+	os.Remove(dst)
+	return os.Rename(filepath.Join(out, filepath.Base(src)), dst)
+}
+
+// SyncFrom is the stand-in for the rebuild file copy (sync.syncFiles: every snapshot of the source, oldest first,
+// data and metadata) followed by what reloadAndVerify does before asking the controller to verify: reload without
+// preload, then UpdateLUNMap.
+func (n *RealNode) SyncFrom(src Node) error {
+	s := src.(*RealNode)
+	sr := s.srv.Replica()
+	if sr == nil {
+		return fmt.Errorf("source not open")
+	}
+	ch, err := sr.Chain()
+	if err != nil {
+		return err
+	}
+	for i := len(ch) - 1; i >= 1; i-- {
+		for _, suf := range []string{"", ".meta"} {
+			if err := copySparse(filepath.Join(s.dir, ch[i]+suf), filepath.Join(n.dir, ch[i]+suf)); err != nil {
+				return err
+			}
+		}
+	}
+	n.srv.SetPreload(false)
+	err = n.srv.Reload()
+	n.srv.SetPreload(true)
+	if err != nil {
+		return fmt.Errorf("reload: %v", err)
+	}
+	return n.srv.UpdateLUNMap()
+}
+
+func (n *RealNode) Destroy() {
+	defer func() { recover() }()
+	if n.srv.Replica() != nil {
+		n.srv.Close()
+	}
+	os.RemoveAll(n.dir)
+	os.RemoveAll(n.dir + "-copy")
+}
+
+var _ = strings.TrimSpace
